@@ -358,9 +358,11 @@ pub enum EvSpec {
 /// Order quantity used by every generated order request / report.
 pub const ORDER_QTY: u32 = 4;
 
-pub fn cid_of(r: &ReqSpec) -> ClientOrderId {
-    cid_name(r.cid, r.refuse)
+/// Side of every request / report about order `cid` (static order data is a function of the id).
+pub fn side_of_cid(cid: u16) -> Side {
+    if cid % 2 == 0 { Side::Buy } else { Side::Sell }
 }
+
 pub fn cid_name(cid: u16, refuse: bool) -> ClientOrderId {
     if refuse { ClientOrderId::new(format!("refuse-{cid}")) } else { ClientOrderId::new(format!("cid-{cid}")) }
 }
@@ -370,11 +372,18 @@ pub struct Resolver<'a> {
     /// running virtual exchange time in ms
     pub now_ms: i64,
     pub trade_seq: u64,
+    /// open requests resolved so far: (client order id number, instrument). Every open request
+    /// gets a fresh client order id (ids are unique per open request); reports and cancels whose
+    /// `cid` selector is >= POOL_CIDS refer to one of these engine-originated orders.
+    pub issued: Vec<(u16, InstrumentIndex)>,
 }
+
+/// Client order ids 0..POOL_CIDS belong to orders the engine only knows from exchange reports.
+pub const POOL_CIDS: u16 = 6;
 
 impl<'a> Resolver<'a> {
     pub fn new(indexed: &'a IndexedInstruments) -> Self {
-        Self { indexed, now_ms: T0_MS + 1_000, trade_seq: 0 }
+        Self { indexed, now_ms: T0_MS + 1_000, trade_seq: 0, issued: Vec::new() }
     }
     fn n_inst(&self) -> usize {
         self.indexed.instruments().len()
@@ -398,17 +407,29 @@ impl<'a> Resolver<'a> {
         }
     }
 
-    pub fn key(&self, r: &ReqSpec) -> OrderKey {
-        let inst = self.inst(r.inst);
-        let exchange = if r.unknown_exchange { ExchangeIndex(self.indexed.exchanges().len() + 1) } else { self.exchange_of(inst) };
-        OrderKey { exchange, instrument: inst, strategy: StrategyId::new(STRATEGY), cid: cid_of(r) }
+    /// (client order id number, instrument) a report / cancel with selector `cid` refers to
+    pub fn target(&self, cid: u16, inst_sel: u8) -> (u16, InstrumentIndex) {
+        if cid >= POOL_CIDS && !self.issued.is_empty() {
+            self.issued[(cid - POOL_CIDS) as usize % self.issued.len()]
+        } else {
+            (cid % POOL_CIDS, self.inst(inst_sel))
+        }
     }
 
-    pub fn open_request(&self, r: &ReqSpec) -> OrderRequestOpen {
+    fn key(&self, r: &ReqSpec, cidnum: u16, inst: InstrumentIndex) -> OrderKey {
+        let exchange = if r.unknown_exchange { ExchangeIndex(self.indexed.exchanges().len() + 1) } else { self.exchange_of(inst) };
+        OrderKey { exchange, instrument: inst, strategy: StrategyId::new(STRATEGY), cid: cid_name(cidnum, r.refuse) }
+    }
+
+    /// Every open request gets a fresh client order id.
+    pub fn open_request(&mut self, r: &ReqSpec) -> OrderRequestOpen {
+        let inst = self.inst(r.inst);
+        let cidnum = 100 + self.issued.len() as u16;
+        self.issued.push((cidnum, inst));
         OrderRequestOpen {
-            key: self.key(r),
+            key: self.key(r, cidnum, inst),
             state: RequestOpen {
-                side: if r.buy { Side::Buy } else { Side::Sell },
+                side: side_of_cid(cidnum),
                 price: Decimal::from(100),
                 quantity: Decimal::from(ORDER_QTY),
                 kind: OrderKind::Limit,
@@ -418,7 +439,8 @@ impl<'a> Resolver<'a> {
     }
 
     pub fn cancel_request(&self, r: &ReqSpec) -> OrderRequestCancel {
-        OrderRequestCancel { key: self.key(r), state: RequestCancel { id: None } }
+        let (cidnum, inst) = self.target(r.cid, r.inst);
+        OrderRequestCancel { key: self.key(r, cidnum, inst), state: RequestCancel { id: None } }
     }
 
     pub fn filter(&self, f: &FilterSpec) -> InstrumentFilter {
@@ -438,10 +460,10 @@ impl<'a> Resolver<'a> {
         OrderKey { exchange: self.exchange_of(inst), instrument: inst, strategy: StrategyId::new(STRATEGY), cid: cid_name(cid, false) }
     }
 
-    fn order<S>(&self, cid: u16, inst: InstrumentIndex, buy: bool, state: S) -> Order<ExchangeIndex, InstrumentIndex, S> {
+    fn order<S>(&self, cid: u16, inst: InstrumentIndex, _buy: bool, state: S) -> Order<ExchangeIndex, InstrumentIndex, S> {
         Order {
             key: self.order_key(cid, inst),
-            side: if buy { Side::Buy } else { Side::Sell },
+            side: side_of_cid(cid),
             price: Decimal::from(100),
             quantity: Decimal::from(ORDER_QTY),
             kind: OrderKind::Limit,
@@ -495,14 +517,16 @@ impl<'a> Resolver<'a> {
                 }))
             }
             EvSpec::OrderOpen { cid, inst, buy, filled, dt } => {
-                let inst = self.inst(*inst);
+                let (cidnum, inst) = self.target(*cid, *inst);
+                let cid = &cidnum;
                 let t = self.time(*dt);
                 let open = Open { id: OrderId::new(format!("oid-{cid}")), time_exchange: t, filled_quantity: Decimal::from((*filled as u32).min(ORDER_QTY)) };
                 let order: Order<ExchangeIndex, InstrumentIndex, OrderState<AssetIndex, InstrumentIndex>> = self.order(*cid, inst, *buy, OrderState::active(open));
                 EngineEvent::Account(AccountStreamEvent::Item(AccountEvent { exchange: self.exchange_of(inst), kind: AccountEventKind::OrderSnapshot(Snapshot(order)) }))
             }
             EvSpec::OrderInactive { cid, inst, buy, kind, dt } => {
-                let inst = self.inst(*inst);
+                let (cidnum, inst) = self.target(*cid, *inst);
+                let cid = &cidnum;
                 let t = self.time(*dt);
                 let state: OrderState<AssetIndex, InstrumentIndex> = match kind {
                     InactiveKind::FullyFilled => OrderState::fully_filled(),
@@ -514,7 +538,8 @@ impl<'a> Resolver<'a> {
                 EngineEvent::Account(AccountStreamEvent::Item(AccountEvent { exchange: self.exchange_of(inst), kind: AccountEventKind::OrderSnapshot(Snapshot(order)) }))
             }
             EvSpec::CancelResp { cid, inst, ok, dt } => {
-                let inst = self.inst(*inst);
+                let (cidnum, inst) = self.target(*cid, *inst);
+                let cid = &cidnum;
                 let t = self.time(*dt);
                 let resp: OrderResponseCancel = OrderResponseCancel {
                     key: self.order_key(*cid, inst),
@@ -547,7 +572,13 @@ impl<'a> Resolver<'a> {
             EvSpec::TradingState { enabled } => EngineEvent::TradingStateUpdate(if *enabled { TradingState::Enabled } else { TradingState::Disabled }),
             EvSpec::CmdCancelOrders(f) => EngineEvent::Command(Command::CancelOrders(self.filter(f))),
             EvSpec::CmdClosePositions(f) => EngineEvent::Command(Command::ClosePositions(self.filter(f))),
-            EvSpec::CmdSendOpen(reqs) if !reqs.is_empty() => EngineEvent::Command(Command::SendOpenRequests(OneOrMany::from_iter(reqs.iter().map(|r| self.open_request(r))))),
+            EvSpec::CmdSendOpen(reqs) if !reqs.is_empty() => {
+                let mut v = Vec::new();
+                for r in reqs {
+                    v.push(self.open_request(r));
+                }
+                EngineEvent::Command(Command::SendOpenRequests(OneOrMany::from_iter(v)))
+            }
             EvSpec::CmdSendCancel(reqs) if !reqs.is_empty() => EngineEvent::Command(Command::SendCancelRequests(OneOrMany::from_iter(reqs.iter().map(|r| self.cancel_request(r))))),
             EvSpec::CmdSendOpen(_) | EvSpec::CmdSendCancel(_) => EngineEvent::Command(Command::CancelOrders(InstrumentFilter::Instruments(OneOrMany::One(InstrumentIndex(self.n_inst() + 7))))),
             EvSpec::Shutdown => EngineEvent::shutdown(),
@@ -566,7 +597,7 @@ pub mod strat {
     pub fn req_spec(allow_refuse: bool, allow_unknown: bool) -> impl Strategy<Value = ReqSpec> {
         (
             0u8..8,
-            0u16..12,
+            0u16..16,
             if allow_refuse { prop::bool::weighted(0.25).boxed() } else { Just(false).boxed() },
             if allow_unknown { prop::bool::weighted(0.03).boxed() } else { Just(false).boxed() },
             any::<bool>(),
@@ -598,16 +629,22 @@ pub mod strat {
     pub fn account_item() -> impl Strategy<Value = EvSpec> {
         prop_oneof![
             2 => (0u8..12, 0u32..100_000, dt()).prop_map(|(asset, total, dt)| EvSpec::Balance { asset, total, dt }),
-            4 => (0u16..12, 0u8..8, any::<bool>(), 0u8..=4, dt()).prop_map(|(cid, inst, buy, filled, dt)| EvSpec::OrderOpen { cid, inst, buy, filled, dt }),
-            1 => (0u16..12, 0u8..8, any::<bool>(), prop_oneof![Just(InactiveKind::FullyFilled), Just(InactiveKind::Cancelled), Just(InactiveKind::Expired), Just(InactiveKind::OpenFailed)], dt())
+            4 => (0u16..16, 0u8..8, any::<bool>(), 0u8..=4, dt()).prop_map(|(cid, inst, buy, filled, dt)| EvSpec::OrderOpen { cid, inst, buy, filled, dt }),
+            1 => (0u16..16, 0u8..8, any::<bool>(), prop_oneof![Just(InactiveKind::FullyFilled), Just(InactiveKind::Cancelled), Just(InactiveKind::Expired), Just(InactiveKind::OpenFailed)], dt())
                 .prop_map(|(cid, inst, buy, kind, dt)| EvSpec::OrderInactive { cid, inst, buy, kind, dt }),
-            1 => (0u16..12, 0u8..8, any::<bool>(), dt()).prop_map(|(cid, inst, ok, dt)| EvSpec::CancelResp { cid, inst, ok, dt }),
+            1 => (0u16..16, 0u8..8, any::<bool>(), dt()).prop_map(|(cid, inst, ok, dt)| EvSpec::CancelResp { cid, inst, ok, dt }),
             3 => fill(),
         ]
     }
 
     pub fn fill() -> impl Strategy<Value = EvSpec> {
         (0u8..8, any::<bool>(), 1u32..2000, prop_oneof![Just(10u16), Just(20u16), Just(5u16), 1u16..60], prop_oneof![Just(0u16), 1u16..100], 0i32..2000)
+            .prop_map(|(inst, buy, price_q, qty, fee_bp, dt)| EvSpec::Fill { inst, buy, price_q, qty, fee_bp, dt })
+    }
+
+    /// fills concentrated on two instruments with a fixed size: closes and flips are frequent
+    pub fn fill_focus() -> impl Strategy<Value = EvSpec> {
+        (0u8..2, any::<bool>(), 1u32..2000, prop_oneof![3 => Just(10u16), 1 => Just(20u16)], prop_oneof![Just(0u16), 1u16..100], 0i32..2000)
             .prop_map(|(inst, buy, price_q, qty, fee_bp, dt)| EvSpec::Fill { inst, buy, price_q, qty, fee_bp, dt })
     }
 
@@ -624,6 +661,7 @@ pub mod strat {
         prop_oneof![
             5 => market_item(),
             8 => account_item(),
+            4 => fill_focus(),
             1 => (0u8..5).prop_map(|ex| EvSpec::MarketReconnecting { ex }),
             1 => (0u8..5).prop_map(|ex| EvSpec::AccountReconnecting { ex }),
             2 => any::<bool>().prop_map(|enabled| EvSpec::TradingState { enabled }),
